@@ -48,6 +48,15 @@ func c11Contexts() []c11Ctx {
 		{"max_by(x, &□)", func(h *gen.Expr) *gen.Expr { return gen.Func("max_by", x(), gen.ExpRef(h)) }},
 		{"min_by(x, &□)", func(h *gen.Expr) *gen.Expr { return gen.Func("min_by", x(), gen.ExpRef(h)) }},
 		{"a.[□]", func(h *gen.Expr) *gen.Expr { return gen.Chain(a(), gen.StMultiList(h)) }},
+		{"{k: □, k: a}", func(h *gen.Expr) *gen.Expr { return gen.MultiHash([]gen.Key{{Name: "k"}, {Name: "k"}}, []*gen.Expr{h, a()}) }},
+		{"{k: a, \"k\": □, j: a}", func(h *gen.Expr) *gen.Expr {
+			return gen.MultiHash([]gen.Key{{Name: "k"}, {Name: "k", Quoted: true}, {Name: "j"}}, []*gen.Expr{a(), h, a()})
+		}},
+		{"[□, □]", func(h *gen.Expr) *gen.Expr { return gen.MultiList(h, h) }},
+		{"not_null(a, a, □)", func(h *gen.Expr) *gen.Expr { return gen.Func("not_null", a(), a(), h) }},
+		{"merge({k: a}, {k: □})", func(h *gen.Expr) *gen.Expr {
+			return gen.Func("merge", gen.MultiHash(keyA("k"), []*gen.Expr{a()}), gen.MultiHash(keyA("k"), []*gen.Expr{h}))
+		}},
 	}
 }
 
@@ -71,7 +80,7 @@ func c11Errors() []struct {
 }
 
 func c11(r *mon.Run) {
-	r.Rule = "E = one representative per error kind and origin (invalid type, invalid arity, unknown function, zero slice step, by-expression key error, error inside an expref body, error inside a filter condition, ill-typed variadic argument) placed in every single-hole context of the grammar (33 contexts: every operator side, every projection kind as left side and as right-hand side / condition, function arguments, expression-reference bodies, multi-select members), " +
+	r.Rule = "E = one representative per error kind and origin (invalid type, invalid arity, unknown function, zero slice step, by-expression key error, error inside an expref body, error inside a filter condition, ill-typed variadic argument) placed in every single-hole context of the grammar (38 contexts, incl. a multi-select hash that repeats a key: every operator side, every projection kind as left side and as right-hand side / condition, function arguments, expression-reference bodies, multi-select members), " +
 		"composed to depth 1 and 2 (3 in thorough) and evaluated on 5 documents that make the hole evaluated or legitimately skipped (left of || true-like, projection over [] / over a non-array, filter never true). plus 460 expressions in which only some elements of a projection / map / sort_by / max_by raise the error (first, middle, last, none), with an index, slice, pipe or function applied to the projection. Oracle: the model evaluates, so 'error expected' is computed. Non-trivial = distinct (context path, error kind, document) with both classes (error expected / legitimately hidden) counted."
 	r.Exhaustive = true
 	r.Floor = 1000
